@@ -386,3 +386,17 @@ package httpd
 //@ func (*Handler).AddRoutes
 //@   call authenticate
 //@     requires [authentication_follows_config] arg1 == h && arg2 == h.Config.AuthEnabled
+
+// The Prometheus result cache answers a range query without executing it (execQuery, and the authorization inside it,
+// are skipped on a hit) and its key names no user: the cache is consulted only for a user who holds the read privilege
+// on the database the answer comes from (repaired by a fix: commit).
+//@ func (*Handler).servePromBaseQuery
+//@   stable httpd.Handler.Config config.Config.AuthEnabled
+//@   ghost rd bool = false
+//@   ghost rdDb string = ""
+//@   call .AuthorizeDatabase
+//@     requires recv == user && arg0 == 1
+//@     set rd = ret0
+//@     set rdDb = arg1
+//@   call (*ResultsCache).Do
+//@     requires [cache_only_for_authorized_readers] h.Config.AuthEnabled ==> (user != nil && rd && rdDb == db)
